@@ -1,5 +1,6 @@
 CONSTANTS TitleClean = "rooted" LinkPolicy = "skip" DeleteValidates = TRUE MaxFull = 3 MaxCore = 5
   Eps = {"art", "tar", "lnk", "imp", "lay"}
+CONSTANT WithVerdict = FALSE
 INIT Init
 NEXT Next
 INVARIANT Emit
